@@ -291,10 +291,76 @@ def check_counts(case, acc, base):
         acc.violation('gro:exception', 'round trip raised %r' % (err,), full)
 
 
+def gro_sequence(seq, acc, base):
+    """Several GRO files of different layouts (coordinate column width = precision + 1, with / without velocities) written
+    and read back one after another in ONE process: every read-back is judged on its own."""
+    import numpy as np
+    import vermouth
+    from vermouth.gmx.gro import write_gro, read_gro
+    for step, (precision, has_vel) in enumerate(seq):
+        case = {'layer': 'gro-sequence', 'sequence': [list(x) for x in seq], 'step': step}
+        system = vermouth.System()
+        mol = vermouth.molecule.Molecule()
+        coords = [(-37.12, 20.5, 1.234), (0.001, -0.001, 99.999), (5.0, -99.999, -1.5)]
+        for idx, xyz in enumerate(coords):
+            attrs = dict(atomname='A%d' % idx, resname='RES', resid=idx + 1, chain='A', position=np.array(xyz, dtype=float))
+            if has_vel:
+                attrs['velocity'] = np.array([0.1234 * (idx + 1), -1.5, 9.8765])
+            mol.add_node(idx, **attrs)
+        system.molecules.append(mol)
+        path = os.path.join(base, 'seq%d.gro' % step)
+        problems = []
+        try:
+            write_gro(system, path, precision=precision, defer_writing=False)
+            back = read_gro(path)
+            os.remove(path)
+            got = [back.nodes[k] for k in back.nodes]
+            if len(got) != 3:
+                problems.append(('gro:sequence-atoms', '%d atoms read back, 3 written' % len(got)))
+            for idx, (node, xyz) in enumerate(zip(got, coords)):
+                if (node.get('atomname'), node.get('resname'), node.get('resid')) != ('A%d' % idx, 'RES', idx + 1):
+                    problems.append(('gro:sequence-fields', 'atom %d read back as %r' % (idx, (node.get('atomname'), node.get('resname'), node.get('resid')))))
+                    break
+                pos = node.get('position')
+                if pos is None or max(abs(float(p) - x) for p, x in zip(pos, xyz)) > 5.001e-4:
+                    problems.append(('gro:sequence-coordinates', 'atom %d written at %r (precision %d) read back at %r' % (
+                        idx, xyz, precision, None if pos is None else [float(x) for x in pos])))
+                    break
+                if has_vel:
+                    vel = node.get('velocity')
+                    want = [0.1234 * (idx + 1), -1.5, 9.8765]
+                    if vel is None or max(abs(float(v) - w) for v, w in zip(vel, want)) > 5.001e-5:
+                        problems.append(('gro:sequence-velocities', 'atom %d velocity %r read back as %r' % (idx, want, None if vel is None else [float(x) for x in vel])))
+                        break
+        except Exception as err:   # pylint: disable=broad-except
+            problems.append(('gro:sequence-exception', 'round trip raised %r' % (err,)))
+        acc.case(nontrivial=step > 0, outcome=('groseq', step, precision, has_vel, tuple(p[0] for p in problems)))
+        if problems:
+            sig, desc = problems[0]
+            acc.violation(sig, 'file %d of the sequence %r (precision, velocities) in one process: %s' % (step + 1, list(seq), desc), case)
+            return
+
+
+def gro_sequences(tier):
+    layouts = [(7, False), (9, False), (7, True), (8, False)] + ([(9, True), (12, False)] if tier != 'quick' else [])
+    seqs = [(l,) for l in layouts] + list(itertools.permutations(layouts, 2))
+    if tier != 'quick':
+        seqs += list(itertools.permutations(layouts, 3))
+    return seqs
+
+
 def work(task):
     common.bind_repo()
     kind, cases = task
     acc = Acc()
+    if kind == 'gro-sequence':
+        base = tempfile.mkdtemp(prefix='verif_c16s_', dir='/dev/shm' if os.path.isdir('/dev/shm') else None)
+        try:
+            for seq in cases:
+                gro_sequence(seq, acc, base)
+        finally:
+            shutil.rmtree(base, ignore_errors=True)
+        return acc
     base = tempfile.mkdtemp(prefix='verif_c16_', dir='/dev/shm' if os.path.isdir('/dev/shm') else None)
     try:
         for case in cases:
@@ -352,6 +418,10 @@ def run(ctx):
     for part in common.pmap(work, [('counts', [c]) for c in cc]):
         acc += part
     ctx.layer('counts', acc)
+    acc = Acc()
+    for part in common.pmap(work, [('gro-sequence', [seq]) for seq in gro_sequences(ctx.tier)], fresh=True):
+        acc += part
+    ctx.layer('gro-read-sequences', acc)
 
 
 def replay(case):
@@ -361,7 +431,9 @@ def replay(case):
     try:
         case = dict(case)
         layer = case.pop('layer')
-        if layer == 'fields':
+        if layer == 'gro-sequence':
+            gro_sequence(tuple(tuple(x) for x in case['sequence']), acc, base)
+        elif layer == 'fields':
             check_fields(case, acc, base)
         else:
             check_counts(case, acc, base)
